@@ -260,6 +260,14 @@ func dynAssignable(d, t string) bool {
 	return rtypes[dt].Implements(rtypes[t])
 }
 
+// name of the dynamic type of the dynamic value d ("nil" for nil)
+func dynTypeName(d string) string {
+	if t := dynType[d]; t != "" {
+		return t
+	}
+	return "nil"
+}
+
 // the empty map values
 func isMapZ(d string) bool { return d == "Mz" || d == "NMz" }
 
